@@ -46,6 +46,7 @@ type inProgressResponseStatus struct {
 	state          graphsync.RequestState
 	networkError   bool
 	task           *peertask.Task
+	subscriber     *subscriber
 	startTime      time.Time
 	responseStream responseassembler.ResponseStream
 }
@@ -195,7 +196,7 @@ func (rm *ResponseManager) PauseResponse(ctx context.Context, requestID graphsyn
 // CancelResponse cancels an in progress response
 func (rm *ResponseManager) CancelResponse(ctx context.Context, requestID graphsync.RequestID) error {
 	response := make(chan error, 1)
-	err := rm.send(&errorRequestMessage{requestID, queryexecutor.ErrCancelledByCommand, response}, ctx.Done())
+	err := rm.send(&errorRequestMessage{requestID, queryexecutor.ErrCancelledByCommand, response, nil}, ctx.Done())
 	if err != nil {
 		return err
 	}
@@ -253,9 +254,9 @@ func (rm *ResponseManager) FinishTask(task *peertask.Task, p peer.ID, err error)
 }
 
 // CloseWithNetworkError closes a request due to a network error
-func (rm *ResponseManager) CloseWithNetworkError(requestID graphsync.RequestID) {
+func (rm *ResponseManager) CloseWithNetworkError(requestID graphsync.RequestID, sub *subscriber) {
 	done := make(chan error, 1)
-	_ = rm.send(&errorRequestMessage{requestID, queryexecutor.ErrNetworkError, done}, nil)
+	_ = rm.send(&errorRequestMessage{requestID, queryexecutor.ErrNetworkError, done, sub}, nil)
 	select {
 	case <-rm.ctx.Done():
 	case <-done:
@@ -263,9 +264,9 @@ func (rm *ResponseManager) CloseWithNetworkError(requestID graphsync.RequestID) 
 }
 
 // TerminateRequest indicates a request has finished sending data and should no longer be tracked
-func (rm *ResponseManager) TerminateRequest(requestID graphsync.RequestID) {
+func (rm *ResponseManager) TerminateRequest(requestID graphsync.RequestID, sub *subscriber) {
 	done := make(chan struct{}, 1)
-	_ = rm.send(&terminateRequestMessage{requestID, done}, nil)
+	_ = rm.send(&terminateRequestMessage{requestID, done, sub}, nil)
 	select {
 	case <-rm.ctx.Done():
 	case <-done:
